@@ -307,3 +307,46 @@ pub fn position(len_words: usize, sel: u16, seed: u64) -> usize {
     ];
     pick(&cands, sel)
 }
+
+/// Pair (p, q), p > q, of about `lp` words whose continued fraction starts with chosen partial
+/// quotients: (p, q) <- (k·p + q, p) is unrolled over a pattern of quotient kinds read from the top
+/// of the expansion — 'H' 58..64 bits, 'h' 61..63 bits, 'W' 2^64 + small, 'M' 2..3 words, 's' small
+/// (mostly 3) — in front of random tails of `lp` and `lp - gap` words. The shapes
+/// "h s s h M" are the ones for which the exactness tests of the double-word Lehmer guess bind.
+pub fn lehmer_quotient_pair(lp: usize, gap: usize, seed: u64, shape: u8, pre: usize) -> (num_bigint::BigUint, num_bigint::BigUint) {
+    use num_bigint::BigUint;
+    use num_traits::One;
+    let mut r = SplitMix(seed ^ 0x1e4e);
+    let big = |w: Vec<u64>| BigUint::from_bytes_le(&w.iter().flat_map(|x| x.to_le_bytes()).collect::<Vec<u8>>());
+    let mut p = big(expand(lp, 1, seed));
+    let mut q = big(expand(lp - gap.min(lp - 1), 1, seed ^ 0x55));
+    if p < q {
+        std::mem::swap(&mut p, &mut q);
+    }
+    let quot = |r: &mut SplitMix, kind: char| -> BigUint {
+        match kind {
+            'H' => BigUint::from(r.next() >> r.below(7)).max(BigUint::one()),
+            'h' => BigUint::from((r.next() | 1 << 63) >> (1 + r.below(3))),
+            'W' => (BigUint::one() << 64usize) + BigUint::from(r.below(1 << 20)),
+            'M' => BigUint::from(r.next() | 1 << 63) * BigUint::from(r.next() | 1) * if r.below(2) == 0 { BigUint::one() } else { BigUint::from(r.next()) },
+            _ => BigUint::from(if r.below(10) < 7 { 3 } else { 1 + r.below(4) }),
+        }
+    };
+    let pattern: Vec<char> = match shape % 8 {
+        0 | 1 => "hsshM".chars().collect(),
+        2 => "HssHM".chars().collect(),
+        3 => "hssh".chars().collect(), // the multi-word quotient comes from the tail gap
+        4 => "hshM".chars().collect(),
+        5 => "WssWM".chars().collect(),
+        6 => "hssshM".chars().collect(),
+        _ => (0..2 + r.below(6)).map(|_| ['H', 'h', 'W', 'M', 's', 's'][r.below(6) as usize]).collect(),
+    };
+    let pattern: Vec<char> = std::iter::repeat('s').take(pre).chain(pattern.into_iter()).collect();
+    for kind in pattern.iter().rev() {
+        let k = quot(&mut r, *kind);
+        let np = &k * &p + &q;
+        q = p;
+        p = np;
+    }
+    (p, q)
+}
